@@ -1536,3 +1536,68 @@ package log
 //@   loop 1 invariant[C15:scan] 0 <= $k && $k <= len(ref.AppenderRefs) && hasRefs(x) && ref == refsOf(x) && len(ref.AppenderRefs) == old(len(refsOf(x).AppenderRefs))
 //@   loop 1 invariant[C15:refs-kept] refsFresh(ref) && (forall j int :: 0 <= j && j < len(ref.AppenderRefs) ==> ref.AppenderRefs[j] == old(refsOf(x).AppenderRefs[j]))
 //@   loop 1 invariant[C15:resolved-so-far] forall j int :: 0 <= j && j < $k ==> has(cAppenders, ref.AppenderRefs[j].Ref) && ref.AppenderRefs[j].Appender == cAppenders[ref.AppenderRefs[j].Ref]
+
+// ---- C15: key spelling ----------------------------------------------------------------------------------
+// A key already in canonical (camelCase) spelling: no '-' or '_' separators, a lower-case first character
+// and no upper-case character directly after a '.'.
+//@ spec fun isUpperB(c int) bool = 'A' <= c && c <= 'Z'
+//@ spec fun isSepB(c int) bool = c == '-' || c == '_'
+//@ spec fun canonKey(s string) bool = len(s) > 0 && !isUpperB(s[0]) && (forall j int :: 1 <= j && j < len(s) ==> !isSepB(s[j]) && (s[j-1] == '.' ==> !isUpperB(s[j])))
+
+//@ func toCamelKey
+//@   modifies nothing
+//@   nopanic[C15]
+//@   ensures[C15:empty] key == "" ==> result == ""
+//@   ensures[C15:never-longer] len(result) <= len(key) && (len(key) > 0 ==> len(result) >= 1)
+//@   ensures[C15:separators-are-dropped] forall j int :: 1 <= j && j < len(result) ==> !isSepB(result[j])
+//@   ensures[C15:canonical-spelling-is-a-fixed-point] canonKey(key) ==> len(result) == len(key) && (forall j int :: 0 <= j && j < len(key) ==> result[j] == key[j])
+//@   ensures[C15:first-character-lowered] len(key) > 0 ==> result[0] == (isUpperB(key[0]) ? key[0] + 32 : key[0])
+//@   loop 1 invariant[C15:range] 1 <= i && i <= len(b) && len(b) == len(key) && 1 <= len(r) && len(r) <= i
+//@   loop 1 writes_own_objects
+//@   loop 1 invariant[C15:private-buffers] fresh(sref(r)) && fresh(sref(b)) && sref(r) != sref(b)
+//@   loop 1 invariant[C15:source] forall j int :: 0 <= j && j < len(b) ==> b[j] == key[j]
+//@   loop 1 invariant[C15:no-separator-kept] forall j int :: 1 <= j && j < len(r) ==> !isSepB(r[j])
+//@   loop 1 invariant[C15:first] r[0] == (isUpperB(key[0]) ? key[0] + 32 : key[0])
+//@   loop 1 invariant[C15:canonical-copied] canonKey(key) ==> len(r) == i && !upperNext && (lowerNext ==> key[i-1] == '.') && (forall j int :: 0 <= j && j < i ==> r[j] == key[j])
+//@   loop 1 decreases len(b) - i
+
+// ---- C15: attribute converters: a value outside the type's vocabulary is an error ---------------------------
+//@ func ParseBufferFullPolicy
+//@   modifies nothing
+//@   nopanic[C15]
+//@   ensures[C15:vocabulary] (s == "Block" ==> result0 == 0 && result1 == nil) && (s == "Discard" ==> result0 == 1 && result1 == nil) && (s == "DiscardOldest" ==> result0 == 2 && result1 == nil)
+//@   ensures[C15:anything-else-is-an-error] s != "Block" && s != "Discard" && s != "DiscardOldest" ==> result1 != nil
+
+//@ func ParseTimeRotation
+//@   requires timeRotationRegistration != nil
+//@   modifies nothing
+//@   nopanic[C15]
+//@   ensures[C15:registered-name] has(timeRotationRegistration, s) ==> result0 == timeRotationRegistration[s] && result1 == nil
+//@   ensures[C15:unknown-name-is-an-error] !has(timeRotationRegistration, s) ==> result1 != nil
+
+//@ func ParseLevelRange
+//@   requires levelRegistry != nil
+//@   modifies nothing
+//@   nopanic[C15]
+//@   ensures[C15:empty-means-everything] str_trim(s) == "" ==> result1 == nil && result0.MinLevel == NoneLevel && result0.MaxLevel == MaxLevel
+//@   ensures[C15:names-must-be-registered] result1 == nil && str_trim(s) != "" ==> has(levelRegistry, str_upper(split_piece(str_trim(s), '~', 0))) && result0.MinLevel == levelRegistry[str_upper(split_piece(str_trim(s), '~', 0))]
+//@   ensures[C15:unknown-lower-bound-is-an-error] str_trim(s) != "" && !has(levelRegistry, str_upper(split_piece(str_trim(s), '~', 0))) ==> result1 != nil
+//@   ensures[C15:unknown-upper-bound-is-an-error] str_trim(s) != "" && split_count(str_trim(s), '~') == 2 && !has(levelRegistry, str_upper(split_piece(str_trim(s), '~', 1))) ==> result1 != nil
+//@   ensures[C15:upper-bound] result1 == nil && str_trim(s) != "" ==> result0.MaxLevel == (split_count(str_trim(s), '~') == 2 ? levelRegistry[str_upper(split_piece(str_trim(s), '~', 1))] : MaxLevel)
+
+// ---- C15: struct-tag lookup ("name,default=...") ------------------------------------------------------------
+//@ spec fun tagItem(t PluginTag, i int) string = split_piece(t, ',', i)
+//@ spec fun itemOK(t PluginTag, i int) bool = split_count(tagItem(t, i), '=') == 2
+//@ spec fun itemName(t PluginTag, i int) string = split_piece(tagItem(t, i), '=', 0)
+//@ spec fun itemValue(t PluginTag, i int) string = split_piece(tagItem(t, i), '=', 1)
+
+//@ func (PluginTag).Lookup
+//@   modifies nothing
+//@   nopanic[C15]
+//@   ensures[C15:unnamed-first-item] key == "" ==> ok && value == tagItem(tag, 0)
+//@   ensures[C15:found-means-declared] key != "" && ok ==> (exists i int :: 1 <= i && i < split_count(tag, ',') && itemOK(tag, i) && itemName(tag, i) == key && value == itemValue(tag, i))
+//@   ensures[C15:first-declaration-wins] forall i int :: key != "" && 1 <= i && i < split_count(tag, ',') && itemOK(tag, i) && itemName(tag, i) == key && (forall j int :: 1 <= j && j < i ==> itemOK(tag, j) && itemName(tag, j) != key) ==> ok && value == itemValue(tag, i)
+//@   ensures[C15:undeclared-means-absent] key != "" && (forall j int :: 1 <= j && j < split_count(tag, ',') ==> itemOK(tag, j) && itemName(tag, j) != key) ==> !ok && value == ""
+//@   loop 1 invariant[C15:scan] 1 <= i && len(kvs) == split_count(tag, ',') && (forall j int :: 0 <= j && j < len(kvs) ==> kvs[j] == tagItem(tag, j))
+//@   loop 1 invariant[C15:none-so-far] forall j int :: 1 <= j && j < i && j < len(kvs) ==> itemOK(tag, j) && itemName(tag, j) != key
+//@   loop 1 decreases len(kvs) - i
